@@ -38,6 +38,38 @@ def pure_computed_cycle(m):
     return any(a in gs.reachable(adj, a) for a in adj)
 
 
+def rings(rng, n):
+    """relations of one type forming a ring: each is exactly the next one (a computed userset), except for some that reach the
+    next one through a tuple (a bare userset restriction "[doc#next]" or a bare tuple-to-userset "next from parent"); the
+    names are drawn at random, so the tuple edge stands at any position relative to the node numbering.  A ring without
+    tuple edge is a compile-time cycle; a ring with one is not."""
+    out = []
+    pool = ["first", "second", "third", "alpha", "beta", "gamma", "m", "n", "z", "a"]
+    for _ in range(n):
+        k = rng.choice([2, 3, 3, 4])
+        names = rng.sample(pool, k)
+        ntup = rng.choice([0, 1, 1, 1, 2])
+        tup = set(rng.sample(range(k), min(k, ntup)))
+        rl = [[S("parent"), [1, 1]]]
+        ml = [[S("parent"), [[[S("doc"), [0], []]], [], []]]]
+        for i, r in enumerate(names):
+            nxt = names[(i + 1) % k]
+            if i in tup:
+                if rng.random() < 0.5:
+                    rl.append([S(r), [1, 1]])
+                    ml.append([S(r), [[[S("doc"), [1, S(nxt)], []]], [], []]])
+                else:
+                    rl.append([S(r), [3, S("parent"), S(nxt)]])
+                    ml.append([S(r), [[], [], []]])
+            else:
+                rl.append([S(r), [2, S(nxt)]])
+                ml.append([S(r), [[], [], []]])
+        order = list(zip(rl, ml))
+        rng.shuffle(order)
+        out.append([S("1.1"), [[S("user"), [], []], [S("doc"), [x[0] for x in order], [[[x[1] for x in order], [], []]]]], []])
+    return out
+
+
 def graph_acyclic(g):
     adj = {}
     for (f, t, _, _) in g[2]:
@@ -54,7 +86,7 @@ def run(ctx):
                        "edge conditions of the plain graph are not observable through its public API and are not compared"]
     n = 300 if ctx.tier == "quick" else 6000
     rep = 6 if ctx.tier == "quick" else 40
-    models = [m for m in graphprops.gen_models(ctx, n) if not gs.degenerate(m)]
+    models = [m for m in graphprops.gen_models(ctx, n) + rings(ctx.rng, max(40, n // 6)) if not gs.degenerate(m)]
     labels = [labels_of(m) for m in models]
     impl = ctx.impl([{"op": "pgraph", "m": m, "labels": [S(x) for x in ls], "repeat": rep} for m, ls in zip(models, labels)])
     try:
@@ -130,6 +162,11 @@ def run(ctx):
                 why = "relations forming a cycle of pure computed usersets are not reported as a compile-time cycle"
             if graph_acyclic(g0) and (ct or rt):
                 why = "an acyclic model reports a cycle"
+            # a compile-time cycle is a cycle of pure computed usersets (every line on it is a computed line, and a computed
+            # line joins two relations of which one is defined as exactly the other): reported for nothing else
+            if ct and not pure_computed_cycle(m) and not why:
+                why = "a compile-time cycle is reported although no relations form a cycle of pure computed usersets"
+            ctx.count("cycle_flags_" + ("ct" if ct else "") + ("rt" if rt else "") + ("none" if not (ct or rt) else ""))
         if why:
             ctx.violation("plain-graph", {"model": m, "why": why})
         elif len(ctx.samples) < 3 and parallel:
